@@ -8,6 +8,7 @@ mod limits_suite;
 mod links_suite;
 mod oracle;
 mod pool_suite;
+mod pressure_suite;
 mod reader_suite;
 mod rng;
 mod s2m_suite;
@@ -223,6 +224,12 @@ fn main() {
       let (rt, local) = local_rt();
       let (seed, cases) = (a.seed, a.cases);
       let t = local.block_on(&rt, async move { limits_suite::run_suite(seed, cases).await });
+      std::fs::write(&a.out, t).expect("write transcript");
+    },
+    "pressure" => {
+      let (rt, local) = local_rt();
+      let (seed, cases, only) = (a.seed, a.cases, a.only);
+      let t = local.block_on(&rt, async move { pressure_suite::run_suite(seed, cases, only).await });
       std::fs::write(&a.out, t).expect("write transcript");
     },
     "links" => {
